@@ -340,6 +340,8 @@ def _deterministic_hashes():
 
 def conn_shims(extra=()):
     _deterministic_hashes()
+    import aioquic.quic.congestion.cubic as cubic
+    import aioquic.quic.congestion.reno as reno
     import aioquic.quic.connection as qc
     import aioquic.quic.packet as pk
     import aioquic.quic.packet_builder as pb
@@ -350,8 +352,10 @@ def conn_shims(extra=()):
     return {
         qc: ["len", "min", "max", "bytes", "int", "isinstance", "range", ("Buffer", TwinBuffer), ("dump_cid", _dump_cid)] + list(extra),
         pk: ["len", "range", ("Buffer", TwinBuffer)],
-        pb: ["len", ("Buffer", TwinBuffer)],
+        pb: ["len", "bytes", ("Buffer", TwinBuffer)],
         st: ["len", "bytes", "bytearray", "min", "max"],
         rs: ["range", "min", "max", "len"],
-        rec: ["len", "min", "max", "int", "range"],
+        rec: ["len", "min", "max", "int", "range", "abs", "sum"],
+        reno: ["int", "max", "min"],
+        cubic: ["int", "max", "min"],
     }
